@@ -106,8 +106,8 @@ class C09(DiffProperty):
     harness_src = "c09_roundtrip.c"
     libs = ["mptcore"]
     harness_env = dict(vcheck.ASAN_LEAK_ENV, ASAN_OPTIONS=vcheck.ASAN_LEAK_ENV["ASAN_OPTIONS"] + ":symbolize=0")
-    harness_args = ("20",)
-    quick_n = 2600
+    harness_args = ("4",)
+    quick_n = 6000
     thorough_n = 100000
 
     # ---- model first (it prints the text), then the implementation on that text
@@ -233,6 +233,8 @@ class C09(DiffProperty):
         # characters no name can be written with are replaced most of the time
         if rng.random() < 0.97:
             bad = {10, 35, 46, 61, 0} | ({123, 125} if st == "p" else {37} if st == "x" else {91, 93})
+            if st != "p":
+                bad |= {9, 11, 12, 13, 32}
             nm = [0x6b if c in bad else c for c in nm]
         return nm
 
@@ -293,9 +295,9 @@ class C09(DiffProperty):
         # value lengths across the representation limits, plain and quoted, in the three styles
         lens = [248, 249, 250, 251, 254, 255, 256, 257] + ([65534, 65535, 65536, 65537] if tier == "thorough" else [65535, 65536])
         for ln in lens:
-            for st in "pxs":
+            for st in "pxsy":
                 for q in ((0, 34) if ln < 1000 else (0,)):
-                    its = [("o", list(b"k"), [0x76] * ln)] if st == "p" else [("s", list(b"sec"), [("o", list(b"kk"), [0x76] * ln)])]
+                    its = [("o", list(b"k"), [0x76] * ln)] if st in "py" else [("s", list(b"sec"), [("o", list(b"kk"), [0x76] * ln)])]
                     d = self.gen_deco(rng, 0)
                     d["q"] = q
                     cases.append(" ".join([st, "N", items_tok(its), ";".join([deco_tok(d)] * 3)]))
@@ -303,11 +305,14 @@ class C09(DiffProperty):
             for st in "pxs":
                 its = [("s", [0x6e] * ln, [("o", [0x6d] * ln, list(b"1"))])]
                 cases.append(" ".join([st, "N", items_tok(its), "~"]))
+            cases.append(" ".join(["y", "N", items_tok([("o", [0x6d] * ln, list(b"1"))]), "~"]))
         for i in range(n):
-            st = rng.choice("pppxs")
+            st = rng.choice("pppxxssy")
             acc = rng.choice(ACCEPTS)
             if st == "p":
                 its = self.gen_items(rng, st, acc, rng.choice([0, 1, 2, 3, 5]), rng.choice([1, 2, 3, 6]), [])
+            elif st == "y":
+                its = self.gen_items(rng, st, acc, 0 if rng.random() < 0.9 else 1, rng.choice([0, 1, 3, 6]), [])
             elif rng.random() < 0.9:
                 its = self.gen_flat(rng, st, acc)
             else:
@@ -318,7 +323,8 @@ class C09(DiffProperty):
             cases.append(" ".join([st, cstr(acc), items_tok(its), decos]))
         return cases
 
-    rule = ("a case = style (prefix '*' default format / enclosed \"%x% = #\" / separated \"[ ] = #\") x name-flag string x tree x "
+    rule = ("a case = style (prefix '*' default format / enclosed \"%x% = #\" / separated \"[ ] = #\" / enclosed with distinct "
+            "delimiters \"[x] = #\", option lists only) x name-flag string x tree x "
             "decoration list; the text is produced by the extracted Gallina printer (print style deco tree) and handed to the C parser; "
             "trees: depth <= 5, fan-out <= 6, duplicate names (25%), empty sections, empty values, names over letters/digits/special "
             "characters/blanks/high bytes as the flags permit, values plain, with inner blanks, with quotes, backslashes, comment "
